@@ -2,7 +2,7 @@
   C10 — executable model of api-fu's schema introspection, default-value printing, schema
   rebuilding from introspection data, and `SchemaDefinition.Clone`.
 
-  Go sources modelled (as written, after the C10 fix patches 01–05):
+  Go sources modelled (as written, after the C10 fix patches 01–04):
     graphql/schema/introspection/introspection.go   resolvers of __Schema/__Type/__Field/__InputValue/
                                                      __EnumValue/__Directive, as driven by query.go
     graphql/schema/introspection/marshal_value.go   `marshalValue`
@@ -597,7 +597,7 @@ def kindsOk {ι : Type} (d : SchemaDef ι) : Bool :=
       && (t.kind == .inputObject || t.inputs.isEmpty))
 
 /-- The feature constraints `shallowValidate` enforces (object_type.go, interface_type.go,
-    union_type.go, input_object_type.go; directive.go after fix patch 05). -/
+    union_type.go, input_object_type.go). -/
 def featuresOk (S : Schema) : Bool :=
   let d := S.defn
   d.types.all (fun t => !S.namedTypes.contains t.name ||
@@ -607,7 +607,11 @@ def featuresOk (S : Schema) : Bool :=
           && f.args.all (fun a => subsetOf (d.featuresOf a.type.ref.leaf) (f.feat.keys ++ t.feat.keys))))
      && (t.kind != .union || t.members.all (fun m => subsetOf (d.featuresOf m) t.feat.keys))
      && (t.kind != .inputObject || t.inputs.all (fun a => subsetOf (d.featuresOf a.type.ref.leaf) t.feat.keys))))
-  && d.directives.all (fun dd => dd.args.all (fun a => d.featuresOf a.type.ref.leaf == []))
+
+/-- No directive argument has a type that requires features. `schema.New` does **not** enforce
+    this (open finding F-10g): it is a separate hypothesis of `visible_closed`. -/
+def dirArgsUngated {ι : Type} (d : SchemaDef ι) : Bool :=
+  d.directives.all (fun dd => dd.args.all (fun a => d.featuresOf a.type.ref.leaf == []))
 
 /-- `Accepted S`: everything the theorems assume about a schema that `schema.New` returned. The
     harness evaluates this predicate on the registries of every real schema it builds. -/
